@@ -276,7 +276,14 @@ int main() {
         case 4 * 2 + 1: runCase<4, true>(budget, progs, sched); break;
         case 5 * 2 + 0: runCase<5, false>(budget, progs, sched); break;
         case 6 * 2 + 0: runCase<6, false>(budget, progs, sched); break;
+        case 5 * 2 + 1: runCase<5, true>(budget, progs, sched); break;
+        case 6 * 2 + 1: runCase<6, true>(budget, progs, sched); break;
         case 7 * 2 + 1: runCase<7, true>(budget, progs, sched); break;
+        case 8 * 2 + 1: runCase<8, true>(budget, progs, sched); break;
+        case 9 * 2 + 0: runCase<9, false>(budget, progs, sched); break;
+        case 9 * 2 + 1: runCase<9, true>(budget, progs, sched); break;
+        case 10 * 2 + 1: runCase<10, true>(budget, progs, sched); break;
+        case 12 * 2 + 1: runCase<12, true>(budget, progs, sched); break;
         case 8 * 2 + 0: runCase<8, false>(budget, progs, sched); break;
         case 15 * 2 + 0: runCase<15, false>(budget, progs, sched); break;
         case 16 * 2 + 1: runCase<16, true>(budget, progs, sched); break;
